@@ -216,9 +216,12 @@ side_by_side_tiff_start(struct Storage* self_) noexcept
                 .is_ref = 1,
             };
             CHECK(self->tiff);
-            state = self->tiff->set(self->tiff, &props);
+            // The inner writer is driven directly, not through the HAL, so
+            // its state has to be recorded here: Tiff::stop() only
+            // terminates and closes the file of a writer that is Running.
+            state = self->tiff->state = self->tiff->set(self->tiff, &props);
             CHECK(state == DeviceState_Armed);
-            state = self->tiff->start(self->tiff);
+            state = self->tiff->state = self->tiff->start(self->tiff);
             CHECK(state == DeviceState_Running);
         }
 
@@ -240,7 +243,8 @@ side_by_side_tiff_stop(struct Storage* self_) noexcept
         struct SideBySideTiff* self =
           containerof(self_, struct SideBySideTiff, storage);
         CHECK(self->tiff);
-        CHECK(self->tiff->stop(self->tiff) == DeviceState_Armed);
+        CHECK((self->tiff->state = self->tiff->stop(self->tiff)) ==
+              DeviceState_Armed);
     } catch (const std::exception& e) {
         LOGE("Exception: %s\n", e.what());
         return DeviceState_AwaitingConfiguration;
@@ -285,7 +289,8 @@ side_by_side_tiff_append(struct Storage* self_,
         struct SideBySideTiff* self =
           containerof(self_, struct SideBySideTiff, storage);
         CHECK(self->tiff);
-        CHECK(self->tiff->append(self->tiff, frame, nbytes) ==
+        CHECK((self->tiff->state =
+                 self->tiff->append(self->tiff, frame, nbytes)) ==
               DeviceState_Running);
     } catch (const std::exception& e) {
         LOGE("Exception: %s\n", e.what());
